@@ -1,6 +1,7 @@
 From Coq Require Import Permutation.
 From HTA.lib Require Import Base ListExtra.
 From HTA.model Require Import Loader_Model.
+From HTA.proof Require Import Loader_Proofs.
 Open Scope Z_scope.
 
 (* ================= iteration of host rows: _get_profiler_step ================= *)
@@ -120,18 +121,14 @@ Theorem trim_exact incl l e :
               (is_dev e = true /\ exists c, In c l /\ is_host c = true /\ cut incl l c /\ corr c = corr e))).
 Proof.
   intro H2. unfold trim. replace (Z.of_nat (List.length (host_steps l)) <? 2) with false by lia.
-  rewrite in_app_iff. unfold kept_dev, kept_host. rewrite in_flat_map. split.
-  - intros [[g [Hg Hin]] | Hh].
-    + apply in_map_iff in Hin. destruct Hin as [c [Hc Hcin]]. subst g.
-      apply filter_In in Hg. destruct Hg as [Hel Hdev].
-      apply filter_In in Hcin. destruct Hcin as [Hcin Hcc]. apply filter_In in Hcin. destruct Hcin as [Hcl Hk].
-      apply keep_host_spec in Hk. split; [exact Hel|]. right. split; [exact Hdev|].
-      exists c. apply Z.eqb_eq in Hcc. tauto.
-    + apply filter_In in Hh. destruct Hh as [Hel Hk]. apply keep_host_spec in Hk. tauto.
+  rewrite in_app_iff. unfold kept_dev, kept_host. rewrite !filter_In, existsb_exists. split.
+  - intros [[[Hel Hdev] [c [Hcin Hcc]]] | [Hel Hk]].
+    + apply filter_In in Hcin. destruct Hcin as [Hcl Hk]. apply keep_host_spec in Hk.
+      split; [exact Hel|]. right. split; [exact Hdev|]. exists c. apply Z.eqb_eq in Hcc. tauto.
+    + apply keep_host_spec in Hk. tauto.
   - intros [Hel [[Hh Hc] | [Hd [c [Hcl [Hch [Hcc Hcorr]]]]]]].
-    + right. apply filter_In. split; [exact Hel | apply keep_host_spec; tauto].
-    + left. exists e. split; [apply filter_In; tauto|].
-      apply in_map_iff. exists c. split; [reflexivity|]. apply filter_In. split.
+    + right. split; [exact Hel | apply keep_host_spec; tauto].
+    + left. split; [tauto|]. exists c. split.
       * apply filter_In. split; [exact Hcl | apply keep_host_spec; tauto].
       * apply Z.eqb_eq. exact Hcorr.
 Qed.
@@ -166,47 +163,72 @@ Proof.
   - pose proof (Hmax M HMin). pose proof (Hpos L HL). unfold eend in *. lia.
 Qed.
 
-(* nothing is duplicated when a device row's id is carried by at most one kept host row *)
+(* nothing is duplicated, however many kept host rows carry a device row's correlation id *)
 Lemma NoDup_filter {A} (f : A -> bool) l : NoDup l -> NoDup (filter f l).
 Proof.
   induction 1 as [|x l Hx Hnd IH]; simpl; [constructor|].
   destruct (f x); [constructor; [rewrite filter_In; tauto | exact IH] | exact IH].
 Qed.
 
-Theorem trim_no_dup incl l :
-  NoDup l ->
-  (forall g c1 c2, In g l -> is_dev g = true -> In c1 l -> In c2 l -> is_host c1 = true -> is_host c2 = true ->
-                   corr c1 = corr g -> corr c2 = corr g -> c1 = c2) ->
-  NoDup (trim incl l).
+Theorem trim_no_dup incl l : NoDup l -> NoDup (trim incl l).
 Proof.
-  intros Hnd Huniq. unfold trim. destruct (Z.of_nat (List.length (host_steps l)) <? 2); [exact Hnd|].
+  intros Hnd. unfold trim. destruct (Z.of_nat (List.length (host_steps l)) <? 2); [exact Hnd|].
   apply NoDup_app_intro.
-  - unfold kept_dev.
-    assert (Hd : NoDup (filter is_dev l)) by (apply NoDup_filter; exact Hnd).
-    assert (Hsub : forall g, In g (filter is_dev l) -> In g l /\ is_dev g = true) by (intros g Hg; apply filter_In in Hg; exact Hg).
-    induction (filter is_dev l) as [|g gs IH]; simpl; [constructor|].
-    inversion Hd as [|? ? Hg Hd']; subst.
-    apply NoDup_app_intro.
-    + (* copies of g: at most one *)
-      destruct (Hsub g (or_introl eq_refl)) as [Hgl Hgd].
-      assert (Hk : NoDup (filter (fun c => corr c =? corr g) (kept_host incl l))).
-      { apply NoDup_filter. apply NoDup_filter. exact Hnd. }
-      remember (filter (fun c => corr c =? corr g) (kept_host incl l)) as K.
-      assert (HK : forall c, In c K -> In c l /\ is_host c = true /\ corr c = corr g).
-      { intros c Hc. subst K. apply filter_In in Hc. destruct Hc as [Hc Hcc]. apply filter_In in Hc.
-        destruct Hc as [Hcl Hk']. apply keep_host_spec in Hk'. apply Z.eqb_eq in Hcc. tauto. }
-      destruct K as [|c1 [|c2 K']]; simpl; [constructor | constructor; [intros [] | constructor] | ].
-      exfalso. inversion Hk as [|x0 l0 Hc1 Hk']. apply Hc1. left.
-      destruct (HK c1 (or_introl eq_refl)) as [? [? ?]].
-      destruct (HK c2 (or_intror (or_introl eq_refl))) as [? [? ?]].
-      symmetry. apply (Huniq g c1 c2); auto.
-    + apply IH; [exact Hd' | intros g' Hg'; apply Hsub; right; exact Hg'].
-    + intros x Hx1 Hx2. apply in_map_iff in Hx1. destruct Hx1 as [c [Hc _]]. subst x.
-      apply in_flat_map in Hx2. destruct Hx2 as [g' [Hg' Hin]]. apply in_map_iff in Hin.
-      destruct Hin as [c' [Hc' _]]. subst g'. contradiction.
+  - unfold kept_dev. apply NoDup_filter. apply NoDup_filter. exact Hnd.
   - apply NoDup_filter. exact Hnd.
-  - intros x Hx1 Hx2. unfold kept_dev in Hx1. apply in_flat_map in Hx1. destruct Hx1 as [g [Hg Hin]].
-    apply in_map_iff in Hin. destruct Hin as [c [Hc _]]. subst g. apply filter_In in Hg. destruct Hg as [_ Hdev].
+  - intros x Hx1 Hx2. unfold kept_dev in Hx1. apply filter_In in Hx1. destruct Hx1 as [Hx1 _].
+    apply filter_In in Hx1. destruct Hx1 as [_ Hdev].
     apply filter_In in Hx2. destruct Hx2 as [_ Hk]. apply keep_host_spec in Hk. destruct Hk as [Hh _].
     unfold is_host in Hh. rewrite Hdev in Hh. discriminate.
+Qed.
+
+(* row ids stay unique through the trimming, for any event mix *)
+Lemma NoDup_map_filter {A B} (f : A -> B) (p : A -> bool) l : NoDup (map f l) -> NoDup (map f (filter p l)).
+Proof.
+  induction l as [|x r IH]; cbn [map filter]; intro H; [constructor|].
+  inversion H as [|? ? Hx Hr]; subst. destruct (p x); cbn [map]; [|apply IH; exact Hr].
+  constructor; [|apply IH; exact Hr].
+  intro Hin. apply Hx. apply in_map_iff in Hin. destruct Hin as [y [Hy Hyin]]. apply filter_In in Hyin.
+  apply in_map_iff. exists y. tauto.
+Qed.
+
+Lemma NoDup_map_inj {A B} (f : A -> B) l a b : NoDup (map f l) -> In a l -> In b l -> f a = f b -> a = b.
+Proof.
+  induction l as [|x r IH]; cbn [map]; intros H Ha Hb Hab; [destruct Ha|].
+  inversion H as [|? ? Hx Hr]; subst. destruct Ha as [Ha|Ha]; destruct Hb as [Hb|Hb]; subst.
+  - reflexivity.
+  - exfalso. apply Hx. rewrite Hab. apply in_map. exact Hb.
+  - exfalso. apply Hx. rewrite <- Hab. apply in_map. exact Ha.
+  - apply IH; assumption.
+Qed.
+
+Theorem trim_ids_unique incl l : NoDup (map idx l) -> NoDup (map idx (trim incl l)).
+Proof.
+  intro Hnd. unfold trim. destruct (Z.of_nat (List.length (host_steps l)) <? 2); [exact Hnd|].
+  rewrite map_app. apply NoDup_app_intro.
+  - unfold kept_dev. apply NoDup_map_filter, NoDup_map_filter. exact Hnd.
+  - unfold kept_host. apply NoDup_map_filter. exact Hnd.
+  - intros x Hx1 Hx2. apply in_map_iff in Hx1. destruct Hx1 as [g [Hg Hgin]]. apply in_map_iff in Hx2. destruct Hx2 as [c [Hc Hcin]].
+    unfold kept_dev in Hgin. apply filter_In in Hgin. destruct Hgin as [Hgin _]. apply filter_In in Hgin. destruct Hgin as [Hgl Hdev].
+    apply filter_In in Hcin. destruct Hcin as [Hcl Hk]. apply keep_host_spec in Hk. destruct Hk as [Hh _].
+    assert (g = c) by (apply (NoDup_map_inj idx l); [exact Hnd | exact Hgl | exact Hcl | congruence]).
+    subst c. unfold is_host in Hh. rewrite Hdev in Hh. discriminate.
+Qed.
+
+Lemma parse_rank_ids f : map idx (parse_rank f) = map idx (parse_file f).
+Proof. unfold parse_rank, add_iter, link. rewrite !map_map. apply map_ext. intro e. reflexivity. Qed.
+
+(* after a full load of any file set every row id occurs at most once in every rank *)
+Theorem load_ids_unique incl files j : NoDup (map idx (nth j (load incl files) [])).
+Proof.
+  unfold load, align. set (P := map parse_rank files). set (c := global_min P).
+  destruct (Nat.lt_ge_cases j (List.length P)) as [Hj|Hj].
+  - rewrite (nth_indep _ [] (trim incl [])) by (rewrite !map_length; exact Hj).
+    rewrite map_nth. apply trim_ids_unique.
+    rewrite (nth_indep _ [] (map (shift c) [])) by (rewrite map_length; exact Hj).
+    rewrite map_nth, map_map.
+    replace (map (fun x => idx (shift c x)) (nth j P [])) with (map idx (nth j P [])) by (apply map_ext; intro e; reflexivity).
+    unfold P. rewrite (nth_indep _ [] (parse_rank [])) by (unfold P in Hj; exact Hj).
+    rewrite map_nth, parse_rank_ids. apply parse_rows_bijection.
+  - rewrite nth_overflow by (rewrite !map_length; exact Hj). constructor.
 Qed.
